@@ -60,6 +60,9 @@ def variants(model):
     lo_b, hi_b = sorted((0.3 * tr[p_b], 0.93 * tr[p_b]))
     lo_o, hi_o = sorted((0.5 * tr[p_o], 2.0 * tr[p_o]))
     out.append(("lim2-unlim:%s+%s" % (p_b, p_o), [("lim", p_b, round(lo_b, 6), round(hi_b, 6)), ("lim", p_o, round(lo_o, 6), round(hi_o, 6)), ("unlim", p_o)]))
+    # the optimum on the bound of the FIRST parameter while a LATER parameter is fixed (backends that re-pack their argument lists)
+    lo, hi = sorted((0.3 * tr[free[0]], 0.93 * tr[free[0]]))
+    out.append(("lim-bound+fix:%s+%s" % (free[0], free[-1]), [("lim", free[0], round(lo, 6), round(hi, 6)), ("fix", free[-1], round(tr[free[-1]] * 1.02, 6))]))
     lo, hi = sorted((0.5 * tr[free[0]], 2.0 * tr[free[0]]))
     out.append(("lim-in+fix:%s+%s" % (free[0], free[-1]), [("lim", free[0], round(lo, 6), round(hi, 6)), ("fix", free[-1], round(tr[free[-1]] * 1.02, 6))]))
     return out
@@ -84,6 +87,11 @@ def jobs(tier, seed):
         for name in ("hist-nll", "hist-nllg", "hist-ga", "unbinned-nll"):
             for vname in ("free", "fix0", "lim-in"):
                 specs.append(("nll", name, "nonlinear", vname, vv, tier))
+        # histogram fits whose uncertainties depend on the parameters (counts model, source relative to the model): both algorithms
+        for name in ("hist-ga-relm", "hist-chi2-relm"):
+            for dea in ("nonlinear", "iterative"):
+                for vname in ("free", "fix0"):
+                    specs.append(("nll", name, dea, vname, vv, tier))
     return specs
 
 
@@ -94,8 +102,13 @@ def bound(tier, seed):
     )
 
 
-def make_nll(name, v, backend, vname):
-    if name == "unbinned-nll":
+def make_nll(name, v, backend, vname, dea="nonlinear"):
+    if name in ("hist-ga-relm", "hist-chi2-relm"):
+        w = FitWorld("hist", "gauss_approximation" if name == "hist-ga-relm" else "chi2", model="normal_counts", v=v, minimizer=backend, poisson_data=False, dea=dea)
+        if name == "hist-chi2-relm":
+            w.apply(("add", "y-abs", "e0"))
+        w.apply(("add", "y-rel-model", "e1"))
+    elif name == "unbinned-nll":
         w = FitWorld("unbinned", "nll", model="normal", v=v, minimizer=backend)
     else:
         cost = {"hist-nll": "nll", "hist-nllg": "nll-gaussian", "hist-ga": "gauss_approximation"}[name]
@@ -193,7 +206,7 @@ def run_config(spec):
                 vops = dict(variants(model))[vname]
                 w = problems.make_family(model, unc, v=v, minimizer=backend, dea=dea, extra_ops=vops)
             else:
-                w = make_nll(name, v, backend, vname)
+                w = make_nll(name, v, backend, vname, dea)
         except Exception as e:  # noqa: BLE001
             viol.append((backend, "do_fit", "no exception", "%s: %s" % (type(e).__name__, str(e)[:120]), "exception:" + type(e).__name__))
             continue
